@@ -304,7 +304,7 @@ func c19Conversions(k int) string {
 		out = append(out, fmt.Sprint(*r, err))
 	}
 	var tp model.TimePeriodType
-	if err := json.Unmarshal([]byte(fmt.Sprintf(`{"endTime":%q}`, string(*model.NewDurationType(time.Duration(k)*time.Minute)))), &tp); err == nil {
+	if err := json.Unmarshal([]byte(fmt.Sprintf(`{"endTime":%q}`, string(*model.NewDurationType(time.Duration(k) * time.Minute)))), &tp); err == nil {
 		d, err := tp.GetDuration()
 		js, _ := json.Marshal(&tp)
 		out = append(out, fmt.Sprint(d, err, string(js)))
